@@ -47,7 +47,7 @@ TF_DEFAULTS = {
     "sk": None, "mom_decay": 0.9, "ema": False, "nesterov": True, "wd": 0.0, "wd_after": True, "lr_schedule": False,
 }
 SK_DEFAULTS = {"rank": 2, "update_freq": 1, "decay": 0.999, "add_ggt": False, "ekfac": False, "lin_tail": False,
-               "relative_epsilon": True, "epsilon": 1e-7, "memory_alloc": False}
+               "relative_epsilon": True, "epsilon": 1e-7, "alloc": None}
 
 # ============================================================================ signatures (worker side)
 PARAM_FIELDS = {("ShampooState", "stats"), ("ShardedShampooStats", "local_stats"), ("SM3State", "stats"),
@@ -220,15 +220,19 @@ def _dtype_type_error(e):
 
 
 # ============================================================================ building the real optimizers
-def build_tree(shapes, kind, dtype="float32"):
-    import jax.numpy as jnp
-    arrs = [jnp.full(tuple(s), 0.5, jnp.dtype(dtype)) for s in shapes]
+def _container(arrs, kind):
+    """one pytree container layout for parameters and for everything that mirrors them (memory_alloc)"""
     if kind == "dict" or not arrs:
         return {f"p{i}": a for i, a in enumerate(arrs)}
     if kind == "list":
         return list(arrs)
     # nested
     return {"a": {"w": arrs[0]}, "rest": list(arrs[1:])}
+
+
+def build_tree(shapes, kind, dtype="float32"):
+    import jax.numpy as jnp
+    return _container([jnp.full(tuple(s), 0.5, jnp.dtype(dtype)) for s in shapes], kind)
 
 
 def _ds_kwargs(cfg):
@@ -448,7 +452,7 @@ def _tf_memory_alloc(params, rank):
     return jax.tree.map(lambda p: [rank] * max(p.ndim, 1), params)
 
 
-def build_tf(cfg, params=None):
+def build_tf(cfg, kind="dict"):
     from precondition.tearfree import optimizer as tfo, grafting, second_order, shampoo as tfs, sketchy as tfk, momentum as tfm
     import jax.numpy as jnp
     c = dict(TF_DEFAULTS)
@@ -463,7 +467,8 @@ def build_tf(cfg, params=None):
         k.update(c["sk"])
         sk = tfk.Options(epsilon=k["epsilon"], rank=k["rank"], relative_epsilon=k["relative_epsilon"],
                          second_moment_decay=k["decay"], update_freq=k["update_freq"], add_ggt=k["add_ggt"],
-                         memory_alloc=None, ekfac_svd=k["ekfac"], linear_approx_tail=k["lin_tail"])
+                         memory_alloc=(_container([list(r) for r in k["alloc"]], kind) if k.get("alloc") is not None else None),
+                         ekfac_svd=k["ekfac"], linear_approx_tail=k["lin_tail"])
     so = second_order.Options(merge_dims=c["merge_dims"], second_order_type=getattr(second_order.SecondOrderType, c["so_type"]),
                               shampoo_options=sh, sketchy_options=sk)
     go = grafting.Options(grafting_type=getattr(grafting.GraftingType, c["graft"]), second_moment_decay=c["graft_decay"],
@@ -486,7 +491,7 @@ def run_tf(case, out):
     fails = out["fails"]
     with contextlib.redirect_stdout(io.StringIO()):
         out["phase"] = "construct"
-        opt = build_tf(cfg)
+        opt = build_tf(cfg, case.get("tree", "dict"))
         out["phase"] = "init"
         state = opt.init(params)
         out["init_sig"] = sig(state, ptd)
@@ -721,10 +726,36 @@ def gen_cases(tier, seed):
             case["ndev"] = rng.choice([1, 2])
         if mode == "sharded":
             case["pspec"] = rng.choice(["full", "full", "empty", "none1"])
+            u = rng.random()
+            if u < 0.2:
+                # the largest block lies on a dimension that the preconditioner type does NOT precondition
+                pt = rng.choice(["INPUT", "OUTPUT"])
+                big = rng.choice([8, 10, 12])
+                small = rng.choice([2, 3])
+                cfg.update({"precondtioner_type": pt, "best_effort_shape_interpretation": False,
+                            "block_size": rng.choice([12, 16, 128]), "num_devices_for_pjit": rng.choice([2, 3])})
+                cfg.pop("skip_preconditioning_dim_size_gt", None)
+                case["shapes"] = [[small, big] if pt == "INPUT" else [big, small]] + gen_shapes(rng, 60, allow_empty=False)[:1]
+            elif u < 0.4:
+                # a skipped parameter of rank >= 1 precedes a preconditioned one in flatten order
+                if rng.random() < 0.5:
+                    cfg["skip_preconditioning_rank_lt"] = 2
+                    first = [rng.choice([3, 5, 7])]
+                else:
+                    cfg["skip_preconditioning_dim_size_gt"] = 6
+                    first = rng.choice([[7], [2, 7], [8, 2]])
+                cfg["num_devices_for_pjit"] = rng.choice([2, 3])
+                case["shapes"] = [first, rng.choice([[4, 3], [3, 3], [2, 5]])] + gen_shapes(rng, 60, allow_empty=False)[:rng.choice([0, 1])]
+                case["tree"] = "dict"
         cases.append(case)
     for _ in range(n_tf):
         gid += 1
-        cases.append({"opt": "tf", "cfg": gen_tf_cfg(rng), "shapes": gen_shapes(rng, 200), "tree": rng.choice(["dict", "list", "nested"]),
+        cfg, shapes = gen_tf_cfg(rng), gen_shapes(rng, 200)
+        if cfg.get("sk") is not None and shapes and rng.random() < 0.45:
+            # memory_alloc as reallocation.create_redist_dict writes it: one list of per-axis ranks per parameter
+            cfg["sk"] = dict(cfg["sk"])
+            cfg["sk"]["alloc"] = [[rng.choice([1, 1, 2, 3, 5]) for _ in range(max(len(sh), 1))] for sh in shapes]
+        cases.append({"opt": "tf", "cfg": cfg, "shapes": shapes, "tree": rng.choice(["dict", "list", "nested"]),
                       "gseed": seed * 1000 + gid})
     for _ in range(n_sm3):
         gid += 1
@@ -806,7 +837,8 @@ def model_request(case, k=3):
         k_ = dict(SK_DEFAULTS)
         k_.update(c["sk"])
         cfg["sk"] = {"rank": int(k_["rank"]), "update_freq": int(k_["update_freq"]), "decay": _rat(k_["decay"]),
-                     "add_ggt": bool(k_["add_ggt"]), "ekfac": bool(k_["ekfac"])}
+                     "add_ggt": bool(k_["add_ggt"]), "ekfac": bool(k_["ekfac"]),
+                     "alloc": ([[int(x) for x in r] for r in k_["alloc"]] if k_.get("alloc") is not None else None)}
     return {"op": "tf", "cfg": cfg, "shapes": case["shapes"], "k": k}
 
 
@@ -1009,7 +1041,7 @@ def run(ctx):
         "message whose innermost frame is inside the precondition package",
         "scope: shard_optimizer_states is always combined with statistics/preconditioner partition specs (num_devices_for_pjit may be "
         "None/0 -> constructor rejection; batch_axis_name may be set as well); parameter partition specs: one entry per dimension, P() or P(None); "
-        "block_size >= 0; float32 parameters in the main streams (other dtypes: separate oracle-only stream, known finding K7); dimensions >= 1; Sketchy memory_alloc=None; optax's adafactor state is an opaque node",
+        "block_size >= 0; float32 parameters in the main streams (other dtypes: separate oracle-only stream, known finding K7); dimensions >= 1; Sketchy memory_alloc = None or one row of ranks >= 1 per parameter with at least ndim entries; optax's adafactor state is an opaque node",
         "TrainingMetrics / FDDiagnostics subtrees are collapsed to one representative leaf when all their leaves agree",
         "multi-device pmap of a tree without statistics is traced with jax.eval_shape only (jaxlib CPU compiler segfault, not the package's)",
     ]
